@@ -276,12 +276,20 @@ func TestMC_C13(t *testing.T) {
 	res.Property = "C13"
 	res.Exhaustive = true
 	dl := seqmc.Deadline()
+	mine := 0
+	for i := range cfgs {
+		if i%sn == si {
+			mine++
+		}
+	}
+	k := 0
 	for i, c := range cfgs {
 		if i%sn != si {
 			continue
 		}
 		c := c
-		st, vs := sched.Explore(sched.Config{Property: "C13", Name: c.name, New: func() sched.Scenario { return &qscn{cfg: c} }, Bounds: bounds, Horizon: 5000, Deadline: dl})
+		st, vs := sched.Explore(sched.Config{Property: "C13", Name: c.name, New: func() sched.Scenario { return &qscn{cfg: c} }, Bounds: bounds, Horizon: 5000, Deadline: sched.FairDeadline(dl, k, mine)})
+		k++
 		if st.Steps == 0 {
 			fmt.Fprintln(os.Stderr, "C13: no scheduling points were hit: the queue is not instrumented")
 			t.Fatal("vacuous")
